@@ -287,7 +287,11 @@ func c28RunReplicaN(c c28Case) ([]*c28Fail, int) {
 	pool.getFn = func(p *hcPool) (PooledConnect, error) { return nil, connErr }
 
 	lastPass := clock.Sec()
+	// takenDown: second until which (exclusive of the cool-down) the hard policy forbids a
+	// recovery = the LATEST time the breaker fired during the current breaker-caused down
+	// period ("cool-down since its latest fuse"); 0 when the node is not down by the breaker.
 	var takenDown, latestTrigger int64
+	fusedDown := false
 	okSinceFail := int64(1000) // rounds that reached the recovery step since the last failed probe
 	for i, rd := range c.Rounds {
 		cur = rd
@@ -311,6 +315,9 @@ func c28RunReplicaN(c c28Case) ([]*c28Fail, int) {
 			}
 			latestTrigger = t
 			if wasUp {
+				fusedDown = true
+			}
+			if fusedDown {
 				takenDown = t
 			}
 		}
@@ -368,6 +375,9 @@ func c28RunReplicaN(c c28Case) ([]*c28Fail, int) {
 		}
 		if before != after {
 			changes++
+		}
+		if after {
+			fusedDown, takenDown = false, 0
 		}
 	}
 	return fails, changes
